@@ -7,6 +7,7 @@ import re
 
 from .. import facts, fitrules
 from ..astutil import (Opaque, call_name, calls_in, const_str, dotted,
+                       func_params,
                        literal, norm, walk_no_nested)
 from ..cfg import CFG
 from ..guards import conditions_at
@@ -303,6 +304,32 @@ def r4_apply_enforces(ctx):
     if not ok:
         raise Undecided("apply does not enumerate identifiers")
     ii, pid = [norm(e) for e in lp.target.elts]
+    # the list that is judged and run is the list the caller gave (under
+    # either keyword), element for element: not sorted, filtered or
+    # completed first
+    params = func_params(fn)
+    for st in walk_no_nested(fn, False):
+        tgs = st.targets if isinstance(st, ast.Assign) else (
+            [st.target] if isinstance(st, (ast.AugAssign, ast.AnnAssign))
+            else [])
+        for t in tgs:
+            if norm(t) != "identifiers":
+                continue
+            v = getattr(st, "value", None)
+            while isinstance(v, ast.Call) and call_name(v) in (
+                    "list", "tuple", "copy.copy", "copy.deepcopy") and len(
+                    v.args) == 1 and not v.keywords:
+                v = v.args[0]
+            plain = isinstance(st, ast.Assign) and (
+                (isinstance(v, ast.Name) and v.id in params) or
+                (isinstance(v, (ast.List, ast.Tuple)) and not v.elts))
+            ctx.check(plain, st, f"apply: {norm(st)[:50]} keeps the given "
+                      "list",
+                      f"preproc.apply replaces the list it was given by "
+                      f"`{norm(getattr(st, 'value', st))[:50]}` before "
+                      "judging it: a list whose required steps come too "
+                      "late (or that lacks them) is then accepted, or other "
+                      "steps run than the ones listed")
     R = Resolver(fn, keep={ii, pid})
     # step call
     calls = [c for c in calls_in(lp) if isinstance(c.func, ast.Name) and
